@@ -429,32 +429,35 @@ func randomTrace(rep *kit.Report, rec *kit.Recorder, rng *rand.Rand, H, P, S, st
 	}
 }
 
-// growShrink is the life of a large table: slots are added one at a time from a single slot,
-// then removed again, every plan carried out; a codec round trip in between.
-func growShrink(rep *kit.Report, rec *kit.Recorder, rng *rand.Rand, H, S int) {
-	d := begin(rep, rec, H, 1, S)
+// growShrink is the life of a large table: starting from P slots, up to `adds` further slots are
+// added one at a time, then up to `removes` are removed again, every plan carried out; a codec
+// round trip, a few stray reassignments and a rebalance in between.
+func growShrink(rep *kit.Report, rec *kit.Recorder, rng *rand.Rand, H, P, S, adds, removes int) {
+	d := begin(rep, rec, H, P, S)
 	if d == nil {
 		return
 	}
-	order := rng.Perm(S)
-	for _, o := range order {
-		if sl := int64(o + 1); !d.active()[sl] && !d.bad {
-			d.carryOut(d.plan("add", sl), []string{"reassign", "migrate"}[rng.Intn(2)])
+	mode := func() string { return []string{"reassign", "migrate"}[rng.Intn(2)] }
+	for _, o := range rng.Perm(S) {
+		if sl := int64(o + 1); adds > 0 && !d.active()[sl] && !d.bad {
+			d.carryOut(d.plan("add", sl), mode())
+			adds--
 		}
 	}
 	if !d.bad {
 		d.do(kit.Ev("Roundtrip"))
 		d.plan("rebalance", 0)
 	}
-	for k := 0; k < 6 && !d.bad; k++ {
+	for k := 0; k < 4 && !d.bad; k++ {
 		d.do(kit.Ev("Reassign", "h", rng.Intn(H), "s", int64(1+rng.Intn(S))))
 	}
 	if !d.bad {
 		d.carryOut(d.plan("rebalance", 0), "reassign")
 	}
-	for _, o := range rng.Perm(S)[:S/2] {
-		if sl := int64(o + 1); d.active()[sl] && !d.bad {
-			d.carryOut(d.plan("remove", sl), []string{"reassign", "migrate"}[rng.Intn(2)])
+	for _, o := range rng.Perm(S) {
+		if sl := int64(o + 1); removes > 0 && d.active()[sl] && !d.bad {
+			d.carryOut(d.plan("remove", sl), mode())
+			removes--
 		}
 	}
 }
@@ -476,6 +479,9 @@ func TestVerifHashSlotTable(t *testing.T) {
 		rep.Infra("load behaviours: %v", err)
 	}
 	for bi, b := range behs {
+		if rep.Violations() >= 5 { // the report keeps five; more of the same adds nothing
+			break
+		}
 		if len(b.Steps) == 0 || kit.Str(b.Steps[0].Ev, "a") != "Init" {
 			rep.Infra("behaviour %d does not start with Init", bi)
 			continue
@@ -519,27 +525,28 @@ func TestVerifHashSlotTable(t *testing.T) {
 	// (a) every table of small sizes, every planner request at each
 	small := [][2]int{{1, 1}, {2, 2}, {3, 3}, {4, 3}, {5, 3}, {4, 4}, {6, 2}, {7, 2}}
 	if env.Thorough() {
-		small = append(small, [2]int{6, 3}, [2]int{7, 3}, [2]int{5, 4}, [2]int{6, 4}, [2]int{10, 2}, [2]int{5, 5})
+		small = append(small, [2]int{6, 3}, [2]int{7, 3}, [2]int{5, 4}, [2]int{10, 2})
 	}
 	for _, hs := range small {
 		allTables(rep, rec, hs[0], hs[1])
 	}
 	// (b) seeded random driver over medium tables
 	sizes := [][2]int{{5, 3}, {8, 3}, {12, 4}, {13, 5}, {16, 4}, {24, 7}, {32, 8}, {64, 8}, {64, 3}, {100, 9}}
-	traces := env.Pick(40, 400)
+	traces := env.Pick(40, 250)
 	for i := 0; i < traces; i++ {
 		sz := sizes[rng.Intn(len(sizes))]
 		randomTrace(rep, rec, rng, sz[0], 1+rng.Intn(sz[1]), sz[1], 12+rng.Intn(20))
 	}
-	// (c) large tables
+	// (c) large tables (each recorded line of a 4096-slot table costs TLC about a second)
 	if env.Thorough() {
-		growShrink(rep, rec, rng, 4096, 64)
-		growShrink(rep, rec, rng, 1000, 33)
-		randomTrace(rep, rec, rng, 4096, 64, 64, 25)
-		randomTrace(rep, rec, rng, 2048, 7, 40, 25)
+		growShrink(rep, rec, rng, 4096, 1, 64, 6, 2)
+		growShrink(rep, rec, rng, 4096, 61, 64, 3, 5)
+		growShrink(rep, rec, rng, 1000, 1, 33, 12, 6)
+		randomTrace(rep, rec, rng, 4096, 64, 64, 8)
+		randomTrace(rep, rec, rng, 2048, 7, 40, 10)
 	} else {
-		growShrink(rep, rec, rng, 256, 16)
-		randomTrace(rep, rec, rng, 512, 5, 24, 15)
+		growShrink(rep, rec, rng, 256, 1, 16, 16, 8)
+		randomTrace(rep, rec, rng, 512, 5, 24, 12)
 	}
 
 	if err := rec.Close(); err != nil {
